@@ -643,3 +643,13 @@ def descendants(facts, body):
         out.extend(facts.children(out[i]))
         i += 1
     return out
+
+
+def var_def_exprs(body, v, expand=True):
+    """Defining expressions of a named local (mutable ones included)."""
+    if not (isinstance(v, tuple) and v and v[0] == "var"):
+        return []
+    l = body.name_local.get(v[1])
+    if l is None:
+        return []
+    return [norm(body.def_expr(bi, si, expand)) for bi, si in body.defs.get(l, [])]
